@@ -16,9 +16,16 @@ def run_lemma(fam, lem, timeout_ms=30000):
         for h in hyps:
             s.add(h)
         s.add(z3.Not(goal))
-        r = s.check()
+        uses_strings = 'String' in s.to_smt2()
+        r = z3.unknown
+        if uses_strings and cvc5_check(s, timeout_ms) == 'unsat':
+            r = z3.unsat
+            solver_name = 'cvc5-1.0.3 --strings-exp'
+        else:
+            solver_name = 'z3-' + z3.get_version_string()
+            r = s.check()
         res = {'id': 'lemma:%s:%s' % (lem.name, oid), 'kind': 'lemma over contracts',
-               'solver': ['z3-' + z3.get_version_string()]}
+               'solver': [solver_name]}
         if r == z3.unsat:
             res['result'] = 'discharged'
         elif r == z3.sat:
